@@ -372,6 +372,7 @@ def handleQ (st : St) (k : Nat) (q : String) (args : List String) : String :=
     | "rank1" => both (.ofOpt (RSN.rank1 r (a 0))) (if n ≠ 0 ∧ a 0 ≤ n then optS (some (Spec.rank true (a 0) abs)) else "N")
     | "rank0" => both (.ofOpt (RSN.rank0 r (a 0))) (if n ≠ 0 ∧ a 0 ≤ n then optS (some (Spec.rank false (a 0) abs)) else "N")
     | "rank1_unchecked" => both (.ofVal (RSN.rank1Unchecked r (a 0))) s!"V:{Spec.rank true (a 0) abs}"
+    | "rank0_unchecked" => both (.ofVal (do let k ← RSN.rank1Unchecked r (a 0); sub (a 0) k)) s!"V:{Spec.rank false (a 0) abs}"
     | "select1" => both (.ofOpt (RSN.select1 r (a 0))) (optS (Spec.select true (a 0) abs))
     | "select0" => both (.ofOpt (RSN.select0 r (a 0))) (optS (Spec.select false (a 0) abs))
     | "select1_unchecked" => both (.ofVal (RSN.selectUnchecked r true (a 0))) s!"V:{(Spec.select true (a 0) abs).getD 0}"
